@@ -77,6 +77,19 @@ int main(void) {
                 bool r = qtreetbl_putobj(t, k, nk, v, nv);
                 scribble_free(k, nk); if (v) scribble_free(v, nv);
                 printf("%s", r ? "true" : "false");
+            } else if (!strcmp(op, "putself")) {
+                /* putself <key> <off>:<len>:<mode>: the value (and with mode 1 the key) handed to put() are the table's own buffers,
+                   as getobj(newmem=false) returns them: value = stored value[off, off+len) (len -1: to the end) */
+                size_t nk = unhex(a1, b1); void *k = dupbuf(b1, nk); size_t ds = 0, so = 0; long sl = 0; int sm = 0;
+                sscanf(a2, "%zu:%ld:%d", &so, &sl, &sm);
+                unsigned char *d = qtreetbl_getobj(t, k, nk, &ds, false);
+                size_t len = sl < 0 ? (ds >= so ? ds - so : 0) : (size_t)sl;
+                qtreetbl_obj_t *o = NULL;
+                if (d) { qtreetbl_obj_t *st[128]; int sp = 0; if (t->root) st[sp++] = t->root;
+                         while (sp && !o) { qtreetbl_obj_t *x = st[--sp]; if (x->data == d) o = x; else { if (x->left && sp < 127) st[sp++] = x->left; if (x->right && sp < 127) st[sp++] = x->right; } } }
+                if (!o || so + len > ds || !len) printf("noself");
+                else { bool r = qtreetbl_putobj(t, (sm & 1) ? o->name : k, nk, d + so, len); printf("%s", r ? "true" : "false"); }
+                scribble_free(k, nk);
             } else if (!strcmp(op, "get")) {
                 size_t nk = unhex(a1, b1); void *k = dupbuf(b1, nk); size_t ds = 12345;
                 errno = 0; ncmp_calls = 0;
